@@ -5,6 +5,8 @@
 name="$1"; wt="$2"; demo="$3"; shift 3
 dst=/verif/seeded/$name; mkdir -p "$dst"
 cp "$wt/patch.diff" "$dst/patch.diff"; cp "$wt/$demo" "$dst/$demo"
+# sub-agents often assert that acryo is imported from their own worktree: the stored demo must run anywhere
+sed -i -E 's|^([[:space:]]*)assert acryo.__file__.startswith\("/tmp/[^"]+"\), acryo.__file__|\1print("acryo imported from", acryo.__file__)|' "$dst/$demo"
 scratch="$(mktemp -d /dev/shm/acryo-seed.XXXXXX)"; trap 'rm -rf "$scratch"' EXIT
 rsync -a --exclude .git --exclude __pycache__ /repo/ "$scratch/repo/"
 cp "$dst/$demo" "$scratch/repo/"
